@@ -26,6 +26,9 @@ func (this ASCIIEncoder) encode(context *EncoderContext) error {
 	} else {
 		c := context.GetCurrentChar()
 		newMode := HighLevelEncoder_lookAheadTest(context.GetMessage(), context.pos, this.getEncodingMode())
+		if !canLatchTo(newMode, context.GetMessage(), context.pos) {
+			newMode = this.getEncodingMode()
+		}
 		if newMode != this.getEncodingMode() {
 			switch newMode {
 			case HighLevelEncoder_BASE256_ENCODATION:
@@ -69,4 +72,20 @@ func encodeASCIIDigits(digit1, digit2 byte) (byte, error) {
 		return byte(num + 130), nil
 	}
 	return 0, gozxing.NewWriterException("IllegalArgumentException: not digits: %c%c", digit1, digit2)
+}
+
+// canLatchTo reports whether the mode the look-ahead proposes can encode what
+// comes next: X12 writes complete triplets only, EDIFACT has to encode at
+// least the current character.
+func canLatchTo(mode int, msg []byte, pos int) bool {
+	switch mode {
+	case HighLevelEncoder_X12_ENCODATION:
+		if pos+3 > len(msg) {
+			return false
+		}
+		return isNativeX12(msg[pos]) && isNativeX12(msg[pos+1]) && isNativeX12(msg[pos+2])
+	case HighLevelEncoder_EDIFACT_ENCODATION:
+		return isNativeEDIFACT(msg[pos])
+	}
+	return true
 }
